@@ -46,7 +46,8 @@ def gen_layout(rng, kind):
         else:
             nuls = sorted(rng.sample(range(PS), rng.randint(1, 4)))
         pages[q] = [rng.randrange(1 << 30), nuls]
-    lay = {"kind": kind, "npfn": npfn, "pages": {str(k): v for k, v in pages.items()}}
+    lay = {"kind": kind, "npfn": npfn, "pages": {str(k): v for k, v in pages.items()},
+           "xlat": rng.random() < 0.5}
     if kind == "diskdump":
         lay["methods"] = {str(q): rng.choice(["raw", "zlib", "snappy", "zstd"]) for q in pages}
     return lay
@@ -79,14 +80,19 @@ def build_file(lay, path):
 
 def spaces(lay):
     """(address space, base address of pfn 0) the file is read through"""
-    if lay["kind"] == "elf":
+    if lay["kind"] == "elf" or lay.get("xlat"):
         return [(AS_MACHPHYS, 0), (AS_KPHYS, 0), (AS_KV, VOFF)]
     return [(AS_MACHPHYS, 0), (AS_KPHYS, 0), (AS_KV, 0)]
 
 
+def drv_mode(lay, m):
+    """driver mode letter; 'x' = bring up the Linux/x86-64 translation system first"""
+    return m + ("x" if lay.get("xlat") else "")
+
+
 def probe_line(lay, path):
     # two pages beyond the end of the layout are probed too
-    return "P %s %s" % (path, " ".join("%x:%x:%x:%x" % (a, base, lay["npfn"] + 2, PS)
+    return "%s %s %s" % (drv_mode(lay, "P"), path, " ".join("%x:%x:%x:%x" % (a, base, lay["npfn"] + 2, PS)
                                         for a, base in spaces(lay)))
 
 
@@ -225,7 +231,7 @@ def compare(run, exe, cases, layouts, model, impl, crashes):
                   "model": m, "implementation": im, "impl_exit": r, "impl_stderr_tail": e[-1500:],
                   "spec_verdict": sv.get(0),
                   "how": "bin/check C12 --replay <this file> rebuilds the dump file from 'layout' and re-runs the items"}
-        what = "%s %s file, %s" % (layouts[path]["kind"], "kdump_read" if mode == "R" else "kdump_read_string",
+        what = "%s %s file, %s" % (layouts[path]["kind"], "kdump_read" if mode[0] == "R" else "kdump_read_string",
                                    " ".join(small))
         if r != 0:
             run.violation("impl", "read.c: sanitizer/crash (exit %s) on %s" % (r, what), replay,
@@ -244,20 +250,20 @@ def check_probe(run, lay, pages, probe_out):
     for w in probe_out.split():
         a, addr, st, hx = w.split(":")
         a, addr = int(a, 16), int(addr, 16)
-        base = VOFF if (a == AS_KV and lay["kind"] == "elf") else 0
-        if a == AS_KV and lay["kind"] != "elf":
-            run.count("probe-kv-untranslatable" if st != "0" else "probe-kv-ok")
+        base = VOFF if (a == AS_KV and (lay["kind"] == "elf" or lay.get("xlat"))) else 0
+        if (a == AS_KV and lay["kind"] != "elf" and not lay.get("xlat")) or (a == AS_KPHYS and not lay.get("xlat")):
+            run.count("probe-untranslatable" if st != "0" else "probe-translated-unexpectedly")
             continue
         pfn = (addr - base) // PS
         if pfn in pages:
             if st != "0":
-                run.count("foreign-present-page-unreadable")
+                run.count("foreign-present-page-unreadable-as%d-%s" % (a, lay["kind"]))
             elif bytes.fromhex(hx) != pages[pfn]:
                 return "page %x of address space %d reads back different bytes than were written" % (pfn, a)
             else:
                 run.count("probe-present")
         else:
-            run.count("probe-missing-%s" % st if st != "0" else "foreign-missing-page-readable")
+            run.count("probe-missing-%s" % st if st != "0" else "foreign-missing-page-readable-as%d-%s" % (a, lay["kind"]))
     return None
 
 
@@ -312,15 +318,16 @@ def check(run):
     cases = []
     if run.replay_path:
         cases = ["%s %s %s" % (rp["mode"], paths[0], " ".join(rp["items"]))] if rp["items"] else []
+        # (rp["mode"] already carries the 'x')
     else:
         per_r = 12 if quick else 30
         per_s = 6 if quick else 16
         for p in paths:
             lay = layouts[p]
             for _ in range(per_r):
-                cases.append("R %s %s" % (p, " ".join(gen_read_items(run.rng, lay, 8))))
+                cases.append("%s %s %s" % (drv_mode(lay, "R"), p, " ".join(gen_read_items(run.rng, lay, 8))))
             for _ in range(per_s):
-                cases.append("S %s %s" % (p, " ".join(gen_string_items(run.rng, lay, 6))))
+                cases.append("%s %s %s" % (drv_mode(lay, "S"), p, " ".join(gen_string_items(run.rng, lay, 6))))
     run.cov["rule"] = ("kdump_read / kdump_read_string items on synthetic ELF (KVADDR via p_vaddr, MACHPHYSADDR, KPHYSADDR) "
                        "and diskdump (raw/zlib/snappy/zstd pages; MACHPHYSADDR, KPHYSADDR, untranslatable KVADDR) files "
                        "with random runs of present pages and holes; starts at page boundaries +-1,2, lengths ending 1 "
@@ -331,7 +338,7 @@ def check(run):
     if not cases:
         return
     model = core.run_model("read", run.casefile("read-cases.txt", cases))
-    impl, crashes = core.run_impl_lines(exe, run.work, cases)
+    impl, crashes = core.run_impl_lines(exe, run.work, cases, timeout=120 if quick else 1200)
     if run.replay_path:
         print("model:          " + model[0][:400])
         print("implementation: " + impl[0][:400])
